@@ -200,6 +200,14 @@ def _cat_col(tf_list: list[TensorFrame]) -> TensorFrame:
             raise RuntimeError(
                 f"Cannot perform cat(..., dim=1) since {stype} contains "
                 f"duplicated column names: {duplicates}.")
+    # Column names must also be unique across stypes since columns are looked
+    # up by name (`TensorFrame.get_col_feat`).
+    duplicates = _get_duplicates(
+        [col for col_names in col_names_dict.values() for col in col_names])
+    if len(duplicates) > 0:
+        raise RuntimeError(
+            f"Cannot perform cat(..., dim=1) since the following column names "
+            f"are duplicated across stypes: {duplicates}.")
 
     return TensorFrame(feat_dict=_cat_helper(tf_list, dim=1),
                        col_names_dict=col_names_dict, y=y)
